@@ -8,6 +8,7 @@ import inspect
 import json
 
 import networkx as nx
+import numpy as np
 
 import check_C07
 import common
@@ -161,7 +162,8 @@ def run(tier: str) -> int:
     r.rule = ("per class of calendar days >= 2015-01-01 (classes as in C07; quick: a sample plus the first class of every year): "
               "the real dependency graph of the default targets with the documented inputs as data — acyclicity certificate and "
               "root check decided by the Lean kernel on the regenerated graph tables; every static parameter path of every "
-              "reachable rule (through helper calls) and every rounding spec looked up in the Lean environment model; stubs; "
+              "reachable rule (through helper calls) and every rounding spec looked up in the Lean environment model, and in the real "
+              "environment on leap days / year ends / last days of classes; stubs; "
               "search: corner populations (zero / huge incomes, birth years 1915…, pensioners, self-employed, big families, every "
               "mietstufe of the date) on the real system, any exception is a hit. distinct = (class, obligation) / populations.")
     emit_lean.regenerate()
@@ -247,8 +249,52 @@ def run(tier: str) -> int:
                           f"{n} carries the rounding key {e['rounding_key']} but has no complete spec at {date}", {"date": date})
     r.oblige("parameter paths of reachable rules exist", True, f"{checked_paths} (rule, path, class) look-ups")
     r.extra["parameter_path_lookups"] = checked_paths
+    # the same look-ups in the REAL environment on days a loader is most likely to treat specially inside a class
+    # (leap days, last day of a year, last day of a class)
+    leap = [D(y, 2, 29) for y in range(START.year, w1.year + 1) if y % 4 == 0 and (y % 100 != 0 or y % 400 == 0) and D(y, 2, 29) <= w1]
+    ends = [D(y, 12, 31) for y in range(START.year, w1.year) if D(y, 12, 31) <= w1]
+    lasts = [c[-1] for c in cs if len(c) > 1]
+    special = sorted(set(leap + (rnd.sample(ends, min(2, len(ends))) if quick else ends)
+                         + (rnd.sample(lasts, min(2, len(lasts))) if quick else lasts)))
+    real_lookups = 0
+    for d in special:
+        o, date = d.toordinal(), d.isoformat()
+        ok, res = r.attempt(f"environment and graph at {date}", lambda date=date: (popgen.env(date), popgen.graph(date)))
+        if not ok:
+            continue
+        (params, functions), (dag, fno) = res
+        active = {}
+        for e in reg:
+            if (not e["td"]) or e["start"] <= o <= e["stop"]:
+                active[e["dag"] if e["td"] else e["fname"]] = e
+        for n in dag.nodes:
+            e = active.get(n)
+            if e is None or n not in functions:
+                continue
+            for g, keys in rule_paths(e, reg_by_name):
+                real_lookups += 1
+                r.case({"rule": n, "date": date, "path": [g, *map(str, keys)]}, nontrivial=False)
+                cur, okp = params.get(g), g in params
+                for k in keys:
+                    if okp and isinstance(cur, dict) and k in cur:
+                        cur = cur[k]
+                    elif okp and isinstance(cur, (list, tuple, np.ndarray)) and isinstance(k, int) and -len(cur) <= k < len(cur):
+                        cur = cur[k]
+                    else:
+                        okp = False
+                if not okp:
+                    witness = _keyerror_witness(rnd, e, date, keys)
+                    if witness is not None:
+                        r.hit({"kind": "missing-parameter", "rule": e["fname"], "path": f"{g}{list(keys)}"},
+                              f"{e['fname']} raises KeyError at {date}: it reads {g}{list(keys)}, which does not exist that day",
+                              {"date": date, "rule": e["fname"], "args": witness})
+                    else:
+                        r.broke("search", f"{e['fname']} reads {g}{list(keys)} ({date})",
+                                "parameter path absent in the real environment of that day")
+    r.extra["real_environment_lookups_on_special_days"] = {"days": [d.isoformat() for d in special], "lookups": real_lookups}
     # search on the real system
     sdates = [d.isoformat() for d in (rnd.sample(reps, 6) if quick else reps[:: max(1, len(reps) // 60)])]
+    sdates += [d.isoformat() for d in (rnd.sample(special, min(2, len(special))) if quick else special)]
     for date in sdates:
         for k in range(6 if quick else 25):
             df, kinds = corner_population(rnd, date)
